@@ -1,4 +1,9 @@
 mod alloc;
+mod api;
+mod c01;
+mod c02;
+mod c05;
+mod gram;
 mod util;
 mod c03;
 mod c13;
@@ -18,9 +23,30 @@ fn main() {
         .spawn(move || {
             let mut rec = Recorder::new(&args);
             match args.prop.as_str() {
+                "C01" => c01::run(&args, &mut rec),
+                "C02" => c02::run(&args, &mut rec),
                 "C03" => c03::run(&args, &mut rec),
+                "C05" => c05::run(&args, &mut rec),
                 "C13" => c13::run(&args, &mut rec),
                 "smoke" => smoke::run(&args, &mut rec),
+                "load" => {
+                    let path = args.extra.get("file").expect("--file");
+                    let strict = args.extra.get("strict").is_some_and(|v| v == "1");
+                    let text = std::fs::read_to_string(path).unwrap();
+                    match a2lfile::load_from_string(&text, None, strict) {
+                        Ok((a, log)) => {
+                            println!("OK, {} log entries", log.len());
+                            for l in &log {
+                                println!("  log: {l}");
+                            }
+                            if args.extra.contains_key("debug") {
+                                println!("{a:#?}");
+                            }
+                            println!("---- written:\n{}", a.write_to_string());
+                        }
+                        Err(e) => println!("ERR: {e}"),
+                    }
+                }
                 "bt" => { let r = a2lfile::load_from_string("/begin A2ML x", None, false); println!("{:?}", r.is_ok()); }
                 other => {
                     eprintln!("unknown property {other}");
